@@ -1,6 +1,9 @@
 LEVEL = "model_checking"
 HARNESSES = [
     dict(name="tsched", src=["tsched.c"], variant="sched", wrap=True, deadline={"quick": 150, "thorough": 1500}),
+    # free-running ThreadSanitizer twin of the scenario bodies (DESIGN 4.5): no wrapping, OS scheduler, decides nothing;
+    # discharges VSX's proviso that there is no unsynchronised access between schedule points
+    dict(name="tsched-tsan", src=["tsched.c"], variant="tsan", cflags=["-DVSX_FREE"], tiers=["thorough"], deadline={"thorough": 600}),
 ]
 ASSUMPTIONS = [
     "interleavings are sequentially consistent and switch only at lock, trylock, condvar wait/wake/signal/broadcast, thread create/join/exit, pthread_once, nanosleep and every __atomic_* builtin (DESIGN 4.4); mutex release is not itself a switch point (the releasing thread's next point is)",
